@@ -67,3 +67,67 @@ contract("qubovert.utils._bo_parentclass:BO.__setitem__", props=["C05", "C14"],
          returns="none", effects=[("store(self)", "store_put(store(self), sq(self, key), value)")],
          modifies=BK_BO,
          loops={1: {"invariant": "True"}})
+
+# ---------------------------------------------------------------------------------- construction, clear, copy
+RESET = BK_BO + ["self._name", "self._ancilla", "self._constraints"]
+PTYPES = ["PUBO", "PUSO", "PCBO", "PCSO", "PUBOMatrix", "PUSOMatrix"]
+
+
+def _shape_init(eng, loc):
+    from vf.qvc.values import DictVal, PObj
+    args, kwargs = loc.get("args", ()), loc.get("kwargs", {})
+    if kwargs:
+        return False
+    if len(args) == 0:
+        return True
+    return len(args) == 1 and isinstance(args[0], (DictVal, PObj)) and (not isinstance(args[0], PObj) or args[0].store is not None)
+
+
+contract("qubovert.utils._dict_arithmetic:DictArithmetic.__init__", props=["C05", "C19"],
+         instances=[{"self": "newmodel:" + c, "args": a, "kwargs": "emptydict"} for c in ALL
+                    for a in ("tuple:", "tuple:termdict", "tuple:model:" + c)],
+         call_when=_shape_init,
+         requires=["is_empty(self)", "len(args) == 0 or keysvalid(self, args[0])", "len(args) == 0 or distinct(self, args[0])"],
+         returns="none", modifies=["self"],
+         ensures=["den(self) == (den_as(self, args[0]) if len(args) == 1 else 0)", "wf(self)"],
+         loops={1: {"invariant": "den(self) == den_as(self, visited) and wf(self)"}})
+
+contract("qubovert.utils._pubomatrix:PUBOMatrix.clear", props=["C05", "C14"],
+         instances=[{"self": "model:" + c} for c in ALL],
+         returns="none", effects=[("store(self)", "empty_store()")], modifies=RESET)
+
+contract("qubovert.utils._dict_arithmetic:DictArithmetic.copy", props=["C05", "C19"],
+         instances=[{"self": "model:" + c} for c in ALL],
+         requires=["wf(self)"],
+         returns=lambda env, eng: "fresh:model:" + env["self"].cls.name,
+         ensures=["den(result) == den(self)", "wf(result)", "isfresh(result)", "sameclass(result, self)"])
+
+# ---------------------------------------------------------------------------------- in-place arithmetic
+def _others(c):
+    return ["termdict", "model:" + c, "real"]
+
+
+for op, sign in (("__iadd__", "+"), ("__isub__", "-")):
+    contract("qubovert.utils._dict_arithmetic:DictArithmetic." + op, props=["C05"],
+             instances=[{"self": "model:" + c, "other": o} for c in ALL for o in _others(c)],
+             requires=["wf(self)", "typeis(other, 'number') or keysvalid(self, other)",
+                       "typeis(other, 'number') or distinct(self, other)"],
+             returns="param:self", modifies=["self"],
+             ensures=["den(self) == old(den(self)) %s (other if typeis(other, 'number') else den_as(self, other))" % sign,
+                      "wf(self)", "result is self"],
+             loops={1: {"invariant": "den(self) == old(den(self)) %s den_as(self, visited) and wf(self)" % sign}})
+
+contract("qubovert.utils._dict_arithmetic:DictArithmetic.__imul__", props=["C05"],
+         instances=[{"self": "model:" + c, "other": o} for c in PTYPES for o in _others(c)] +
+                   [{"self": "model:" + c, "other": "real"} for c in ("QUBO", "QUSO", "QUBOMatrix", "QUSOMatrix")],
+         requires=["wf(self)", "typeis(other, 'number') or keysvalid(self, other)",
+                   "typeis(other, 'number') or distinct(self, other)"],
+         returns="param:self", modifies=["self"],
+         ensures=["den(self) == old(den(self)) * (other if typeis(other, 'number') else den_as(self, other))",
+                  "wf(self)", "result is self"],
+         loops={1: {"invariant": "den(self) == den_as(self, visited) * den_as(self, other) and wf(self)"},
+                2: {"invariant": "den(self) == den_as(self, visited1) * den_as(self, other) + "
+                                 "v * mono_as(self, k) * den_as(self, visited2) and wf(self)"},
+                3: {"invariant": "den(self) == den_as(self, coll) + (other - 1) * den_as(self, visited) and wf(self) and "
+                                 "forall_key(lambda q: implies(not has(visited, q), has(self, q) == has(coll, q) and "
+                                 "lookup(self, q) == lookup(coll, q)))"}})
